@@ -534,13 +534,25 @@ impl Ctx {
                         b
                     }
                     1 => u64::MAX.to_be_bytes().to_vec(),
+                    3 => {
+                        // an Auth frame whose embedded message is cut short: field 1, LEN 5, 1 byte present
+                        let mut b = 3u64.to_be_bytes().to_vec();
+                        b.extend_from_slice(&[0x0a, 0x05, 0x0a]);
+                        b
+                    }
+                    4 => {
+                        // a Control frame (field 3) with an invalid wire type inside
+                        let mut b = 3u64.to_be_bytes().to_vec();
+                        b.extend_from_slice(&[0x1a, 0x01, 0x0f]);
+                        b
+                    }
                     _ => {
                         let mut b = 100u64.to_be_bytes().to_vec();
                         b.extend_from_slice(&[8, 1]);
                         b
                     }
                 };
-                (Err(bytes), "Malformed".into())
+                (Err(bytes), format!("Malformed {}", u(w[1])))
             }
             other => panic!("unknown op {other}"),
         }
@@ -557,13 +569,13 @@ fn pong_ts(s: u64) -> pc::Pong {
 }
 
 /// honest complete handshake of a peer named `n` against a server-side session
-async fn honest_server_handshake(peer: &mut Peer, names: &Names, n: u64, own: u64) {
+async fn honest_server_handshake(peer: &mut Peer, names: &Names, n: u64, own: u64, nonce: u64) {
     use pa::authentication_message::Msg as A;
     peer.send(&auth_frame(A::Name(pa::NameMessage {
         name: names.name(n),
         flags: Some(pa::NodeFlags { version: 1 }),
         connection_string: names.cs(n),
-        connection_id: 7777,
+        connection_id: nonce,
     })))
     .await;
     barrier().await;
@@ -586,6 +598,34 @@ async fn honest_server_handshake(peer: &mut Peer, names: &Names, n: u64, own: u6
     peer.new_frames();
 }
 
+/// honest acceptor for a client-side session of the node: the peer named `n` knows the cookie
+async fn honest_acceptor(peer: &mut Peer, names: &Names, n: u64, own: u64) {
+    use pa::authentication_message::Msg as A;
+    barrier().await;
+    peer.new_frames(); // the node's Name
+    peer.send(&auth_frame(A::ServerStatus(pa::ServerStatus { status: 0 }))).await;
+    peer.send(&auth_frame(A::ServerChallenge(pa::Challenge {
+        name: names.name(n),
+        flags: Some(pa::NodeFlags { version: 1 }),
+        challenge: 4242,
+        connection_string: names.cs(n),
+    })))
+    .await;
+    barrier().await;
+    let mut my = 0;
+    for f in peer.new_frames() {
+        if let Some(pm::network_message::Message::Auth(a)) = f.message {
+            if let Some(A::ClientChallenge(c)) = a.msg {
+                my = c.challenge;
+            }
+        }
+    }
+    peer.send(&auth_frame(A::ServerAck(pa::ChallengeAck { digest: challenge_digest(&cookie_str(own), my) }))).await;
+    barrier().await;
+    peer.send(&control_frame(Some(pc::control_message::Msg::Ready(pc::Ready {})))).await;
+    barrier().await;
+    peer.new_frames();
+}
 
 // ---------- handler-level runs on a constructed state (hook: node_session::verif_gate) ----------
 
@@ -886,7 +926,7 @@ async fn run_live(case: u64, rest: &str) -> String {
         ns.cast(NodeServerMessage::ConnectionOpenedExternal { stream: Box::new(Duplex(a)), is_server: true }).unwrap();
         barrier().await;
         let mut pp = Peer::new(b);
-        honest_server_handshake(&mut pp, &Names { self_cs: self_cs.clone() }, 1, own).await;
+        honest_server_handshake(&mut pp, &Names { self_cs: self_cs.clone() }, 1, own, 7777).await;
         pre_peer = Some(pp);
     }
     let n_pre = sessions.0.lock().unwrap().len();
@@ -945,6 +985,7 @@ async fn run_live(case: u64, rest: &str) -> String {
     let mut seen_log = 0usize;
     let mut seen_ev = events.0.lock().unwrap().len();
     let mut extra: Vec<ractor::ActorCell> = vec![];
+    let mut honest_peers: Vec<Peer> = vec![];
     for op in ops.split(';') {
         let w: Vec<&str> = op.split_whitespace().collect();
         if w.is_empty() {
@@ -964,6 +1005,27 @@ async fn run_live(case: u64, rest: &str) -> String {
             };
             ctx.targets.insert(if rem { "R2" } else { "P2" }, pid);
             format!("LSpawn {pid} {}", coq_bool(rem))
+        } else if w[0] == "honest" {
+            // a SECOND, honest peer (it knows the cookie) named w[2] completes a full handshake on its own
+            // connection now: `honest in <n> <nonce>` dials in, `honest out <n>` accepts the node's outgoing connection
+            let (a, b) = tokio::io::duplex(1 << 20);
+            let n = u(w[2]);
+            if w[1] == "in" {
+                ns.cast(NodeServerMessage::ConnectionOpenedExternal { stream: Box::new(Duplex(a)), is_server: true }).unwrap();
+                barrier().await;
+                let mut pp = Peer::new(b);
+                let names = Names { self_cs: ctx.names.self_cs.clone() };
+                honest_server_handshake(&mut pp, &names, n, own, u(w[3])).await;
+                honest_peers.push(pp);
+            } else {
+                ractor_cluster::client_connect_external(&ns, Box::new(Duplex(a))).await.expect("connect_external");
+                barrier().await;
+                let mut pp = Peer::new(b);
+                let names = Names { self_cs: ctx.names.self_cs.clone() };
+                honest_acceptor(&mut pp, &names, n, own).await;
+                honest_peers.push(pp);
+            }
+            format!("LHonest {n}")
         } else if w[0] == "lstopR2" {
             match ctx.targets.remove("R2") {
                 Some(pid) => {
@@ -1119,6 +1181,7 @@ async fn run_live(case: u64, rest: &str) -> String {
     for c in &extra {
         c.stop(None);
     }
+    drop(honest_peers);
     drop(peer);
     drop(pre_peer);
     ns.stop(None);
